@@ -101,7 +101,7 @@ func (l *liveRun) judge(w *ops.World, class string) bool {
 		pp := c.Panics[len(c.Panics)-1]
 		l.s.Violate("abci-call-panicked", pp.Phase+"|"+exoFrame(pp.Stack)+"|"+panicClass(pp.Value), l.hist, len(w.Steps), "%s panicked (family %s, after %s): %s", pp.Phase, l.fam, class, trunc80(pp.Value))
 	case w.ConsensusHalt != "":
-		l.s.Violate("consensus-halt", "validator-set-would-be-empty", l.hist, len(w.Steps), "EndBlock returned validator updates that CometBFT refuses (family %s, after %s): %s", l.fam, class, trunc80(w.ConsensusHalt))
+		l.s.Violate("consensus-halt", haltClass(w.ConsensusHalt), l.hist, len(w.Steps), "EndBlock returned validator updates that CometBFT refuses (family %s, after %s): %s", l.fam, class, trunc80(w.ConsensusHalt))
 	default:
 		l.s.Violate("history-dead", class, l.hist, len(w.Steps), "the history stopped without a recorded panic (family %s)", l.fam)
 	}
@@ -227,6 +227,21 @@ func runLive(j Job) *Result {
 	}
 	res.AddStats(st)
 	return res
+}
+
+// haltClass names the reason for which CometBFT's own validation refuses a validator update list.
+func haltClass(reason string) string {
+	switch {
+	case strings.Contains(reason, "would result in empty set"):
+		return "validator-set-would-be-empty"
+	case strings.Contains(reason, "voting power can't be higher than"), strings.Contains(reason, "total voting power"):
+		return "voting-power-above-cometbft-maximum"
+	case strings.Contains(reason, "duplicate"):
+		return "duplicate-entry"
+	case strings.Contains(reason, "negative"):
+		return "negative-power"
+	}
+	return "other"
 }
 
 func (l *liveRun) ledger(j Job, i int, prof string) *ops.World {
